@@ -171,163 +171,241 @@ def isCredErr (code : Nat) : Bool :=
   code == STUN_ERROR_BAD_REQUEST || code == STUN_ERROR_UNAUTHORIZED ||
   code == STUN_ERROR_STALE_NONCE || code == STUN_ERROR_TRY_ALTERNATE
 
+/-! `stun_agent_validate` is split into its consecutive stages; each stage mirrors a block of the C
+    function in order.  `Sum.inl st` = the C code returns `st` at that point. -/
+
+/-- header fields read once the framing is accepted -/
+structure Hdr where
+  cookie : Bool
+  cls : Nat
+  method : Nat
+  msgId : Bytes
+  deriving Repr, Inhabited
+
+def readHdr (buffer : Bytes) : M Hdr :=
+  match hasCookie buffer, getClass buffer, getMethod buffer, messageId buffer with
+  | .ok cookie, .ok cls, .ok method, .ok msgId => .ok ⟨cookie, cls, method, msgId⟩
+  | .error e, _, _, _ => .error e
+  | _, .error e, _, _ => .error e
+  | _, _, .error e, _ => .error e
+  | _, _, _, .error e => .error e
+
+/-- stage 1 (stunagent.c:161-194): length validation, cookie rule, fingerprint rule -/
+def frameCheck (ag : Agent) (buffer : Bytes) : M (Sum Status Hdr) :=
+  let c := ag.cfg
+  match validateLen buffer (!c.has STUN_AGENT_USAGE_NO_ALIGNED_ATTRIBUTES) with
+  | .error e => .error e
+  | .ok .invalid => .ok (.inl .notStun)
+  | .ok .incomplete => .ok (.inl .incomplete)
+  | .ok (.len n) =>
+    if n != buffer.size then .ok (.inl .notStun) else
+    match readHdr buffer with
+    | .error e => .error e
+    | .ok h =>
+      if isRfc5389ish c && !h.cookie then .ok (.inl .badRequest) else
+      if isRfc5389ish c && c.has STUN_AGENT_USAGE_USE_FINGERPRINT then
+        match checkFingerprint ag buffer with
+        | .error e => .error e
+        | .ok false => .ok (.inl .badRequest)
+        | .ok true => .ok (.inr h)
+      else .ok (.inr h)
+
+/-- stage 2 (:196-216): a response / error response must match a saved transaction -/
+def isResponse (h : Hdr) : Bool := h.cls == STUN_RESPONSE || h.cls == STUN_ERROR
+
+def matchResponse (ag : Agent) (h : Hdr) : Sum Status (Option Nat) :=
+  if isResponse h then
+    match findSent ag.sent h.method h.msgId with
+    | some i => .inr (some i)
+    | none => .inl .unmatchedResponse
+  else .inr none
+
+/-- what the later stages look up in the message -/
+structure Facts where
+  errRet : Ret
+  errCode : Nat
+  hasUser : Bool
+  hasMI : Bool
+  hasNonce : Bool
+  hasRealm : Bool
+  deriving Repr, Inhabited
+
+def readFacts (a : Option Cfg) (buffer : Bytes) : M Facts :=
+  match findError a buffer, hasAttribute a buffer tUSERNAME, hasAttribute a buffer tMI,
+        hasAttribute a buffer tNONCE, hasAttribute a buffer tREALM with
+  | .ok (errRet, errCode), .ok hasUser, .ok hasMI, .ok hasNonce, .ok hasRealm =>
+    .ok ⟨errRet, errCode, hasUser, hasMI, hasNonce, hasRealm⟩
+  | .error e, _, _, _, _ => .error e
+  | _, .error e, _, _, _ => .error e
+  | _, _, .error e, _, _ => .error e
+  | _, _, _, .error e, _ => .error e
+  | _, _, _, _, .error e => .error e
+
+/-- `ignore_credentials` (:218-229) -/
+def ignoreCredOf (c : Cfg) (h : Hdr) (f : Facts) : Bool :=
+  c.has STUN_AGENT_USAGE_IGNORE_CREDENTIALS ||
+  (h.cls == STUN_ERROR && f.errRet == .success && isCredErr f.errCode) ||
+  (h.cls == STUN_INDICATION &&
+    (c.has STUN_AGENT_USAGE_LONG_TERM_CREDENTIALS || c.has STUN_AGENT_USAGE_NO_INDICATION_AUTH))
+
+/-- the presence rules (:231-248) : `true` = return UNAUTHORIZED_BAD_REQUEST -/
+def presenceFails (c : Cfg) (h : Hdr) (f : Facts) (keyNull ignoreCred : Bool) : Bool :=
+  keyNull && !ignoreCred && (h.cls == STUN_REQUEST || h.cls == STUN_INDICATION) &&
+    ((c.has STUN_AGENT_USAGE_SHORT_TERM_CREDENTIALS && (!f.hasUser || !f.hasMI)) ||
+     (c.has STUN_AGENT_USAGE_LONG_TERM_CREDENTIALS && h.cls == STUN_REQUEST &&
+       (!f.hasUser || !f.hasMI || !f.hasNonce || !f.hasRealm)) ||
+     (!c.has STUN_AGENT_USAGE_IGNORE_CREDENTIALS && f.hasUser && !f.hasMI))
+
+/-- the validater call (:250-261): `none` = return UNAUTHORIZED, `some key` = the key from here on -/
+def callValidater (c : Cfg) (buffer : Bytes) (validater : Validater) (f : Facts) (key0 : Option Bytes)
+    (ignoreCred : Bool) : M (Option (Option Bytes)) :=
+  if f.hasMI && ((key0.isNone && !ignoreCred) || c.has STUN_AGENT_USAGE_FORCE_VALIDATER) then
+    match find (some c) buffer tUSERNAME with
+    | .error e => .error e
+    | .ok u =>
+      let unameR : M Bytes := match u with
+        | some (off, len) => rdBytes buffer off len.toNat
+        | none => .ok #[]
+      match unameR with
+      | .error e => .error e
+      | .ok uname =>
+        match validater with
+        | none => .ok none
+        | some g => match g uname with
+          | none => .ok none
+          | some k => .ok (some k)
+  else .ok (some key0)
+
+/-- the 16-bit length the MAC is computed with, and the RFC 3489 padding flag, per compatibility -/
+def macLenOf (c : Cfg) (buffer : Bytes) (hoff : Nat) : M UInt16 :=
+  if c.compat == STUN_COMPATIBILITY_MSICE2 then (messageLength buffer).map (· - 20)
+  else .ok (UInt16.ofNat hoff)
+
+def macPadOf (c : Cfg) : Bool := isRfc3489ish c || c.compat == STUN_COMPATIBILITY_MSICE2
+
+/-- long-term key derivation (:275-295): stored key, or MD5 over USERNAME/REALM of the message -/
+def longTermKey (H : Hashes) (c : Cfg) (buffer : Bytes) (k : Bytes) (ltValid0 : Bool) (ltKey0 : Bytes) :
+    M (Option Bytes) :=
+  if ltValid0 then .ok (some ltKey0)
+  else
+    match find (some c) buffer tREALM, find (some c) buffer tUSERNAME with
+    | .ok (some (ro, rl)), .ok (some (uo, ul)) =>
+      match rdBytes buffer ro rl.toNat, rdBytes buffer uo ul.toNat with
+      | .ok realm, .ok uname => .ok (some (hashCreds H realm uname k))
+      | .error e, _ => .error e
+      | _, .error e => .error e
+    | .error e, _ => .error e
+    | _, .error e => .error e
+    | _, _ => .ok none
+
+/-- the MESSAGE-INTEGRITY check (:263-343) with a non-empty key `k`: (false, _) = return
+    UNAUTHORIZED; the info is what the caller's StunMessage holds at that point -/
+def miCheckKey (H : Hashes) (c : Cfg) (buffer : Bytes) (h : Hdr) (f : Facts) (k : Bytes)
+    (ltValid0 : Bool) (ltKey0 : Bytes) : M (Bool × MsgInfo) :=
+  match find (some c) buffer tMI with
+  | .error e => .error e
+  | .ok (some (hoff, hlen)) =>
+    if hlen != 20 then .ok (false, {}) else
+    match macLenOf c buffer hoff with
+    | .error e => .error e
+    | .ok ml =>
+      if c.has STUN_AGENT_USAGE_LONG_TERM_CREDENTIALS then
+        match longTermKey H c buffer k ltValid0 ltKey0 with
+        | .error e => .error e
+        | .ok none => .ok (false, {})
+        | .ok (some md5) =>
+          match stunSha1 H buffer (hoff + 20) ml md5 (macPadOf c), rdBytes buffer hoff 20 with
+          | .ok sha, .ok hash =>
+            if sha != hash then .ok (false, { ltKey := md5, ltValid := true })
+            else .ok (true, { key := some k, ltKey := md5, ltValid := true })
+          | .error e, _ => .error e
+          | _, .error e => .error e
+      else
+        match stunSha1 H buffer (hoff + 20) ml k (macPadOf c), rdBytes buffer hoff 20 with
+        | .ok sha, .ok hash =>
+          if sha != hash then .ok (false, {})
+          else .ok (true, { key := some k })
+        | .error e, _ => .error e
+        | _, .error e => .error e
+  | .ok none =>
+    if !(h.cls == STUN_ERROR && f.errRet == .success &&
+         (f.errCode == STUN_ERROR_BAD_REQUEST || f.errCode == STUN_ERROR_UNAUTHORIZED)) then
+      .ok (false, {})
+    else .ok (true, {})
+
+/-- `if (ignore_credentials == 0 && key != NULL && key_len > 0) { … }` -/
+def miCheck (H : Hashes) (c : Cfg) (buffer : Bytes) (h : Hdr) (f : Facts) (key : Option Bytes)
+    (ignoreCred ltValid0 : Bool) (ltKey0 : Bytes) : M (Bool × MsgInfo) :=
+  match key with
+  | some k =>
+    if !ignoreCred && k.size > 0 then miCheckKey H c buffer h f k ltValid0 ltKey0
+    else .ok (true, {})
+  | none => .ok (true, {})
+
+/-- `agent->sent_ids[sent_id_idx].valid = FALSE` for the matched slot (if any) -/
+def invalidate (sent : Array SavedId) (sentIdx : Option Nat) : Array SavedId :=
+  match sentIdx with
+  | some i => sent.modify i fun s => { s with valid := false }
+  | none => sent
+
+/-- the local `error_code` at the consent-freshness test: assigned only by a successful
+    stun_message_find_error, otherwise its indeterminate initial value -/
+def errNowOf (f : Facts) (uninitErr : Nat) : Nat := if f.errRet == .success then f.errCode else uninitErr
+
+/-- the tail (:345-369): consent-freshness 403, one-shot invalidation of the saved id, MS-ICE2
+    legacy flag, unknown comprehension-required attributes -/
+def validateTail (ag : Agent) (buffer : Bytes) (h : Hdr) (f : Facts) (sentIdx : Option Nat)
+    (info : MsgInfo) (uninitErr : Nat) : M (Status × Agent × MsgInfo) :=
+  let c := ag.cfg
+  if c.has STUN_AGENT_USAGE_CONSENT_FRESHNESS && h.cls == STUN_ERROR &&
+      errNowOf f uninitErr == STUN_ERROR_FORBIDDEN then .ok (.forbidden, ag, info)
+  else
+    let sent' := invalidate ag.sent sentIdx
+    match find32 (some c) buffer (UInt16.ofNat STUN_ATTRIBUTE_MS_IMPLEMENTATION_VERSION) with
+    | .error e => .error e
+    | .ok (implRet, _) =>
+      let ag' := { ag with sent := sent', legacy := if implRet == .success then false else ag.legacy }
+      match findUnknowns ag buffer 1 with
+      | .error e => .error e
+      | .ok unk =>
+        if unk.size > 0 then
+          .ok (if h.cls == STUN_REQUEST then .unknownRequestAttribute else .unknownAttribute, ag', info)
+        else .ok (.success, ag', info)
+
+/-- key, long_term_valid and long_term_key copied from the matched saved id (NULL / FALSE / zeros
+    for requests and indications) -/
+def slotInfo (ag : Agent) (sentIdx : Option Nat) : Option Bytes × Bool × Bytes :=
+  match sentIdx with
+  | some i => let s := ag.sent.getD i {}; (s.key, s.ltValid, s.ltKey)
+  | none => (none, false, Array.replicate 16 0)
+
 /-- `stun_agent_validate (agent, msg, buffer, buffer_len, validater, validater_data)`.
     `uninitErr` is the indeterminate initial value of the local `error_code` (read when
     CONSENT_FRESHNESS is set and an error response carries no valid ERROR-CODE). -/
 def validate (H : Hashes) (ag : Agent) (buffer : Bytes) (validater : Validater) (uninitErr : Nat := 0) :
     M (Status × Agent × MsgInfo) :=
   let c := ag.cfg
-  let a := some c
-  match validateLen buffer (!c.has STUN_AGENT_USAGE_NO_ALIGNED_ATTRIBUTES) with
+  match frameCheck ag buffer with
   | .error e => .error e
-  | .ok .invalid => .ok (.notStun, ag, {})
-  | .ok .incomplete => .ok (.incomplete, ag, {})
-  | .ok (.len n) =>
-    if n != buffer.size then .ok (.notStun, ag, {}) else
-    match hasCookie buffer, getClass buffer, getMethod buffer, messageId buffer with
-    | .ok cookie, .ok cls, .ok method, .ok msgId =>
-      if isRfc5389ish c && !cookie then .ok (.badRequest, ag, {}) else
-      let fprR : M Bool :=
-        if isRfc5389ish c && c.has STUN_AGENT_USAGE_USE_FINGERPRINT then checkFingerprint ag buffer
-        else .ok true
-      match fprR with
+  | .ok (.inl st) => .ok (st, ag, {})
+  | .ok (.inr h) =>
+    match matchResponse ag h with
+    | .inl st => .ok (st, ag, {})
+    | .inr sentIdx =>
+      let sl := slotInfo ag sentIdx      -- key, long_term_valid, long_term_key of the matched request
+      match readFacts (some c) buffer with
       | .error e => .error e
-      | .ok false => .ok (.badRequest, ag, {})
-      | .ok true =>
-        -- transaction matching for responses
-        let isResp := cls == STUN_RESPONSE || cls == STUN_ERROR
-        let sentIdx : Option Nat := if isResp then findSent ag.sent method msgId else none
-        if isResp && sentIdx.isNone then .ok (.unmatchedResponse, ag, {}) else
-        let slot : SavedId := match sentIdx with | some i => ag.sent.getD i {} | none => {}
-        let key0 : Option Bytes := if sentIdx.isSome then slot.key else none
-        let ltKey0 := slot.ltKey
-        let ltValid0 := if sentIdx.isSome then slot.ltValid else false
-        match findError a buffer, hasAttribute a buffer tUSERNAME, hasAttribute a buffer tMI,
-              hasAttribute a buffer tNONCE, hasAttribute a buffer tREALM with
-        | .ok (errRet, errCode), .ok hasUser, .ok hasMI, .ok hasNonce, .ok hasRealm =>
-          let ignoreCred : Bool :=
-            c.has STUN_AGENT_USAGE_IGNORE_CREDENTIALS ||
-            (cls == STUN_ERROR && errRet == .success && isCredErr errCode) ||
-            (cls == STUN_INDICATION &&
-              (c.has STUN_AGENT_USAGE_LONG_TERM_CREDENTIALS || c.has STUN_AGENT_USAGE_NO_INDICATION_AUTH))
-          if key0.isNone && !ignoreCred && (cls == STUN_REQUEST || cls == STUN_INDICATION) &&
-              ((c.has STUN_AGENT_USAGE_SHORT_TERM_CREDENTIALS && (!hasUser || !hasMI)) ||
-               (c.has STUN_AGENT_USAGE_LONG_TERM_CREDENTIALS && cls == STUN_REQUEST &&
-                 (!hasUser || !hasMI || !hasNonce || !hasRealm)) ||
-               (!c.has STUN_AGENT_USAGE_IGNORE_CREDENTIALS && hasUser && !hasMI)) then
-            .ok (.unauthorizedBadRequest, ag, {})
-          else
-          -- the validater call
-          let keyR : M (Option (Option Bytes)) :=      -- none = return UNAUTHORIZED
-            if hasMI && ((key0.isNone && !ignoreCred) || c.has STUN_AGENT_USAGE_FORCE_VALIDATER) then
-              match find a buffer tUSERNAME with
-              | .error e => .error e
-              | .ok u =>
-                let unameR : M Bytes := match u with
-                  | some (off, len) => rdBytes buffer off len.toNat
-                  | none => .ok #[]
-                match unameR with
-                | .error e => .error e
-                | .ok uname =>
-                  match validater with
-                  | none => .ok none
-                  | some f => match f uname with
-                    | none => .ok none
-                    | some k => .ok (some k)
-            else .ok (some key0)
-          match keyR with
+      | .ok f =>
+        let ignoreCred := ignoreCredOf c h f
+        if presenceFails c h f sl.1.isNone ignoreCred then .ok (.unauthorizedBadRequest, ag, {}) else
+        match callValidater c buffer validater f sl.1 ignoreCred with
+        | .error e => .error e
+        | .ok none => .ok (.unauthorized, ag, {})
+        | .ok (some key) =>
+          match miCheck H c buffer h f key ignoreCred sl.2.1 sl.2.2 with
           | .error e => .error e
-          | .ok none => .ok (.unauthorized, ag, {})
-          | .ok (some key) =>
-            -- the MESSAGE-INTEGRITY check: (false, _) = return UNAUTHORIZED; the info is what the
-            -- caller's StunMessage holds at that point
-            let miR : M (Bool × MsgInfo) :=
-              match key with
-              | some k =>
-                if !ignoreCred && k.size > 0 then
-                  match find a buffer tMI with
-                  | .error e => .error e
-                  | .ok (some (hoff, hlen)) =>
-                    if hlen != 20 then .ok (false, {}) else
-                    let pad := isRfc3489ish c || c.compat == STUN_COMPATIBILITY_MSICE2
-                    let msgLenR : M UInt16 :=
-                      if c.compat == STUN_COMPATIBILITY_MSICE2 then
-                        (messageLength buffer).map (· - 20)
-                      else .ok (UInt16.ofNat hoff)
-                    if c.has STUN_AGENT_USAGE_LONG_TERM_CREDENTIALS then
-                      let md5R : M (Option Bytes) :=
-                        if ltValid0 then .ok (some ltKey0)
-                        else
-                          match find a buffer tREALM, find a buffer tUSERNAME with
-                          | .ok (some (ro, rl)), .ok (some (uo, ul)) =>
-                            match rdBytes buffer ro rl.toNat, rdBytes buffer uo ul.toNat with
-                            | .ok realm, .ok uname => .ok (some (hashCreds H realm uname k))
-                            | .error e, _ => .error e
-                            | _, .error e => .error e
-                          | .error e, _ => .error e
-                          | _, .error e => .error e
-                          | _, _ => .ok none
-                      match md5R, msgLenR with
-                      | .error e, _ => .error e
-                      | _, .error e => .error e
-                      | .ok none, _ => .ok (false, {})
-                      | .ok (some md5), .ok ml =>
-                        match stunSha1 H buffer (hoff + 20) ml md5 pad, rdBytes buffer hoff 20 with
-                        | .ok sha, .ok hash =>
-                          if sha != hash then .ok (false, { ltKey := md5, ltValid := true })
-                          else .ok (true, { key := some k, ltKey := md5, ltValid := true })
-                        | .error e, _ => .error e
-                        | _, .error e => .error e
-                    else
-                      match msgLenR with
-                      | .error e => .error e
-                      | .ok ml =>
-                        match stunSha1 H buffer (hoff + 20) ml k pad, rdBytes buffer hoff 20 with
-                        | .ok sha, .ok hash =>
-                          if sha != hash then .ok (false, {})
-                          else .ok (true, { key := some k })
-                        | .error e, _ => .error e
-                        | _, .error e => .error e
-                  | .ok none =>
-                    if !(cls == STUN_ERROR && errRet == .success &&
-                         (errCode == STUN_ERROR_BAD_REQUEST || errCode == STUN_ERROR_UNAUTHORIZED)) then
-                      .ok (false, {})
-                    else .ok (true, {})
-                else .ok (true, {})
-              | none => .ok (true, {})
-            match miR with
-            | .error e => .error e
-            | .ok (false, info) => .ok (.unauthorized, ag, info)
-            | .ok (true, info) =>
-              -- consent freshness: 403 on an error response
-              -- `error_code` is assigned only by a successful stun_message_find_error
-              let errNow : Nat := if errRet == .success then errCode else uninitErr
-              if c.has STUN_AGENT_USAGE_CONSENT_FRESHNESS && cls == STUN_ERROR &&
-                  errNow == STUN_ERROR_FORBIDDEN then .ok (.forbidden, ag, info)
-              else
-              -- one-shot invalidation of the saved id
-              let sent' := match sentIdx with
-                | some i => ag.sent.modify i fun s => { s with valid := false }
-                | none => ag.sent
-              match find32 a buffer (UInt16.ofNat STUN_ATTRIBUTE_MS_IMPLEMENTATION_VERSION) with
-              | .error e => .error e
-              | .ok (implRet, _) =>
-                let ag' := { ag with sent := sent', legacy := if implRet == .success then false else ag.legacy }
-                match findUnknowns ag buffer 1 with
-                | .error e => .error e
-                | .ok unk =>
-                  if unk.size > 0 then
-                    .ok (if cls == STUN_REQUEST then .unknownRequestAttribute else .unknownAttribute, ag', info)
-                  else .ok (.success, ag', info)
-        | .error e, _, _, _, _ => .error e
-        | _, .error e, _, _, _ => .error e
-        | _, _, .error e, _, _ => .error e
-        | _, _, _, .error e, _ => .error e
-        | _, _, _, _, .error e => .error e
-    | .error e, _, _, _ => .error e
-    | _, .error e, _, _ => .error e
-    | _, _, .error e, _ => .error e
-    | _, _, _, .error e => .error e
+          | .ok (false, info) => .ok (.unauthorized, ag, info)
+          | .ok (true, info) => validateTail ag buffer h f sentIdx info uninitErr
 
 /-- `stun_agent_forget_transaction` -/
 def forgetTransaction (ag : Agent) (id : Bytes) : Bool × Agent :=
